@@ -453,6 +453,7 @@ func init() {
 		p := fr.i.p
 		pm := p.pool
 		key := args[0].(*value)
+		p.sched.yield("Pool.Get")
 		bag := pm.bags[key]
 		pm.gets++
 		if s := p.sched; s.multi() {
@@ -486,6 +487,7 @@ func init() {
 			o.vc.join(&s.cur.vc)
 			s.cur.vc[s.cur.id]++
 		}
+		p.sched.yield("Pool.Put") // ownership ends here: another goroutine may take the object at once
 		// adversarial environment: right after the k-th Put another "goroutine" runs a whole operation
 		// (its own Gets take the object that was just put back). Anything the putter still does with the
 		// object afterwards is then exposed.
